@@ -15,7 +15,7 @@ from ..fxsym import interp as ix
 from ..fxsym.capture import capture
 from ..fxsym.programs import SIZES, build, programs, root_specs, spec_name
 from ..par import run_tasks
-from ..report import CONCRETE, INCONCLUSIVE, Report, describe_function
+from ..report import CONCRETE, INCONCLUSIVE, Report, describe_function, lazy
 from ..sym.runner import discharge
 from ..sym.scalar import Ctx
 from ..sym.tensor import Session, STensor
@@ -244,8 +244,8 @@ def run(rep: Report, only: str = "") -> None:
     if only:
         tasks = [t for t in tasks if only in (spec_name(t[1][0]) if t[1] else "weights")]
     rep.extend(run_tasks(tasks))
-    rep.functions = [describe_function(f) for f in (us.unit_scaling_backend, us._unit_scale_residual, us._unconstrain_node, us._add_dependency_meta,
-                                                    us._is_add, us._is_self_attention, us.unit_scale, us._unit_init_weights, us._zero_init_biases)]
+    rep.functions = [describe_function(f) for f in (lazy(lambda: us.unit_scaling_backend), lazy(lambda: us._unit_scale_residual), lazy(lambda: us._unconstrain_node), lazy(lambda: us._add_dependency_meta),
+                                                    lazy(lambda: us._is_add), lazy(lambda: us._is_self_attention), lazy(lambda: us.unit_scale), lazy(lambda: us._unit_init_weights), lazy(lambda: us._zero_init_biases))]
     rep.bounds = {"programs": f"{len(specs)} module programs generated exhaustively from the grammar up to the tier's bound (1-3 segments: mapped ops incl. torch.nn wrappers, unmapped ops, "
                               "tensor+tensor / reversed / +scalar / in-place adds, residual blocks x+f(x) and f(x)+x with 1-2 op branches incl. softmax/attention, skip = input | residual "
                               "output | plain sum, heads none/mse/cross-entropy, optional embedding), plus user replacements {tanh: U.gelu}; the program axis is enumerated, not solved",
